@@ -23,12 +23,14 @@ import (
 )
 
 const (
-	keyQmarkPercent = "C46/getMoreSpecificPatterns/qmark-absorbs-percent"
 	keyWrongWinner  = "C46/IsTableNameIgnored/wrong-winner"
 	keyBasic        = "C46/IsTableNameIgnored/basic-rule"
 	keyMatch        = "C46/MatchTablePattern/language"
 	keyNormalize    = "C46/normalizePattern/changes-language"
 	keyMoreSpecific = "C46/getMoreSpecificPatterns/unsound"
+	// equally specific (same language) contradicting patterns whose normal forms differ (`?%` vs
+	// `*?%`): one is silently preferred instead of a conflict being reported
+	keyEquivNorm = "C46/normalizePattern/equivalent-patterns-different-normal-form"
 )
 
 type pat struct {
@@ -181,17 +183,12 @@ func requiredDecision(ps []pat, name string) (want string, why string) {
 	if len(fs) == 0 {
 		return "ignore", "only patterns with ignored = true match"
 	}
-	for _, t := range ts {
-		for _, f := range fs {
-			if langEq(langOf(t), langOf(f)) {
-				return "conflict", fmt.Sprintf("patterns %q (ignored) and %q (not ignored) match the same names", t, f)
-			}
-		}
-	}
+	// a pattern strictly more specific than every matching pattern of the other kind wins ...
+	strict := func(a, b string) bool { return subset(langOf(a), langOf(b)) && !langEq(langOf(a), langOf(b)) }
 	for _, t := range ts {
 		all := true
 		for _, f := range fs {
-			if !subset(langOf(t), langOf(f)) {
+			if !strict(t, f) {
 				all = false
 			}
 		}
@@ -202,12 +199,20 @@ func requiredDecision(ps []pat, name string) (want string, why string) {
 	for _, f := range fs {
 		all := true
 		for _, t := range ts {
-			if !subset(langOf(f), langOf(t)) {
+			if !strict(f, t) {
 				all = false
 			}
 		}
 		if all {
 			return "dontignore", fmt.Sprintf("%q (not ignored) is strictly more specific than every matching ignored pattern", f)
+		}
+	}
+	// ... otherwise equally specific contradicting patterns are a conflict
+	for _, t := range ts {
+		for _, f := range fs {
+			if langEq(langOf(t), langOf(f)) {
+				return "conflict", fmt.Sprintf("patterns %q (ignored) and %q (not ignored) match the same names and no pattern is more specific than all others", t, f)
+			}
 		}
 	}
 	return "", ""
@@ -255,19 +260,6 @@ type runner struct {
 	m *hx.Model
 }
 
-func hasBoth(ps []pat, a, b string) bool {
-	x, y := false, false
-	for _, p := range ps {
-		if strings.Contains(p.P, a) {
-			x = true
-		}
-		if strings.Contains(p.P, b) {
-			y = true
-		}
-	}
-	return x && y
-}
-
 func (r *runner) runCase(k kase) {
 	e, m := r.e, r.m
 	switch k.Kind {
@@ -293,9 +285,6 @@ func (r *runner) runCase(k kase) {
 		if got == "true" && oraclePattern(k.A) && oraclePattern(k.B) && !subset(langOf(k.B), langOf(k.A)) {
 			// "more specific" claimed although some name matches B and not A
 			key := keyMoreSpecific
-			if strings.Contains(k.A, "?") && strings.Contains(k.B, "%") {
-				key = keyQmarkPercent
-			}
 			e.Rep.Hit("more:unsound")
 			e.Rep.Violate(key, fmt.Sprintf("getMoreSpecificPatterns(%q) accepts %q as more specific, but some name matches %q and not %q", k.A, k.B, k.B, k.A), k)
 			if got != mod {
@@ -367,8 +356,8 @@ func (r *runner) runCase(k kase) {
 					key := keyWrongWinner
 					if nT == 0 || nF == 0 {
 						key = keyBasic
-					} else if hasBoth(k.Pats, "?", "%") {
-						key = keyQmarkPercent
+					} else if want == "conflict" && equivDifferentNormalForm(k.Pats, name) {
+						key = keyEquivNorm
 					}
 					e.Rep.Hit("decide:wrong")
 					e.Rep.Violate(key, fmt.Sprintf("IsTableNameIgnored(%v, %q) = %s but %s, so it must be %s", k.Pats, name, got, why, want), k)
@@ -571,15 +560,28 @@ func generalise(r *hx.Rng, n string) string {
 	return sb.String()
 }
 
-func (r *runner) witnesses() {
-	// D1: a `?` of the less specific pattern absorbs a `%` of the candidate
-	ps := []pat{{"a?", true}, {"a%", false}}
-	if got := implDecide(ps, "ab"); got == "dontignore" {
-		r.e.Rep.Known(keyQmarkPercent, "IsTableNameIgnored([a? ignored, a% not ignored], \"ab\") = dontignore although a? is strictly more specific than a%", kase{Kind: "decide", A: "ab", Pats: ps})
+// equivDifferentNormalForm: some matching ignored / not-ignored pair has the same language but
+// different normalizePattern results.
+func equivDifferentNormalForm(ps []pat, name string) bool {
+	for _, t := range ps {
+		for _, f := range ps {
+			if t.Ign && !f.Ign && omatch(t.P, name) && omatch(f.P, name) && langEq(langOf(t.P), langOf(f.P)) &&
+				doltdb.VerifNormalizePattern(t.P) != doltdb.VerifNormalizePattern(f.P) {
+				return true
+			}
+		}
 	}
-	r.runCase(kase{Kind: "decide", A: "ab", Pats: ps})
-	r.runCase(kase{Kind: "more", A: "a?", B: "a%"})
-	// D1 through SQL, D2: tracked table with an ignored name is modified, commit -A skips it
-	r.runCase(kase{Kind: "sql", Prog: []sqlOp{{Op: "ignore", T: "a?", Flag: true}, {Op: "ignore", T: "a%", Flag: false}, {Op: "create", T: "ab"}, {Op: "addall"}}})
+	return false
+}
+
+func (r *runner) witnesses() {
+	// D4 (finding): b?% (ignored) and b*?% (not ignored) match exactly the same names, yet no
+	// conflict is reported: the syntactically "more specific" one wins.
+	d4 := []pat{{"b?%", true}, {"b*?%", false}}
+	if got := implDecide(d4, "bba"); got != "conflict" {
+		r.e.Rep.Known(keyEquivNorm, fmt.Sprintf("IsTableNameIgnored([b?%% ignored, b*?%% not ignored], \"bba\") = %s although both patterns match exactly the same names (normal forms %q / %q differ)", got, doltdb.VerifNormalizePattern("b?%"), doltdb.VerifNormalizePattern("b*?%")), kase{Kind: "decide", A: "bba", Pats: d4})
+	}
+	// D2 (known finding): a tracked table with an ignored name is modified, commit -A skips it.
+	// (The former D1 witness -- a? ignored, a% not ignored, table ab -- is a corpus case now.)
 	r.runCase(kase{Kind: "sql", Prog: []sqlOp{{Op: "create", T: "ab"}, {Op: "commitA"}, {Op: "ignore", T: "ab", Flag: true}, {Op: "modify", T: "ab"}, {Op: "commitA"}}})
 }
